@@ -9,10 +9,12 @@ Representation choices (all order-preserving with respect to the Rust data):
 * `PartialModel` is `Spec.PModel = Nat → Option Bool` (`get`); `set` is `PModel.set`. The two
   bit sets of the Rust struct are the pre-images of `some true` / `some false`; their ascending
   iteration is `List.range numVars |>.filter …`.
-* `watch_list_pos` / `watch_list_neg : Vec<Vec<ClauseIdx>>` are one function
-  `WL = Bool → Nat → List Nat` (`wl true v = watch_list_pos[v]`, `wl false v = watch_list_neg[v]`);
-  the inner lists keep the exact `Vec` order (`push` = append at the end, `swap_remove` =
-  `swapRemove`). `WL.toLists n` gives back the two `Vec<Vec<_>>` for `n` variables.
+* `watch_list_pos` / `watch_list_neg : Vec<Vec<ClauseIdx>>` are the two fields of `WL`, read by
+  `WL.get` (an absent position reads as `[]`) and written by `WL.upd` (which pads, so that
+  `get_upd` holds unconditionally; every label is `< num_vars`, so no padding ever happens on a
+  solver built by `Solver.new`); the inner lists keep the exact `Vec` order (`push` = append at
+  the end, `swap_remove` = `swapRemove`). `WL.toLists n` gives the two `Vec<Vec<_>>` for `n`
+  variables.
 * `BitSet` of satisfied clauses is a `Nat → Bool`; `len()` is the count over the clause indices
   (`sat_lt` in the lemma file shows that only clause indices are ever inserted).
 * `contains_pos_lit[v]` / `contains_neg_lit[v]` (bit sets, iterated ascending) are computed on
@@ -60,20 +62,36 @@ def cnfNew (cs : Cnf) : Cnf := cs.map fun c => dedupAdj (isort leLabel c)
 
 /-! ## `UnitPropagate` -/
 
-/-- the two watch-list vectors: `wl true v = watch_list_pos[v]`, `wl false v = watch_list_neg[v]` -/
-abbrev WL := Bool → Nat → List Nat
+/-- padded write into a vector of lists: positions beyond the end are created (empty); the Rust
+code would panic there, which never happens because every label is `< num_vars` -/
+def setPad : List (List Nat) → Nat → List Nat → List (List Nat)
+  | [], 0, xs => [xs]
+  | [], v + 1, xs => [] :: setPad [] v xs
+  | _ :: t, 0, xs => xs :: t
+  | h :: t, v + 1, xs => h :: setPad t v xs
 
-def WL.empty : WL := fun _ _ => []
+/-- the two watch-list vectors `watch_list_pos`, `watch_list_neg`; an absent position reads as
+the empty list (so `WL.empty` stands for `num_vars` empty lists) -/
+structure WL where
+  pos : List (List Nat)
+  neg : List (List Nat)
+deriving Repr, Inhabited
+
+def WL.empty : WL := ⟨[], []⟩
+
+/-- `watch_list_pos[v]` (`p = true`) / `watch_list_neg[v]` (`p = false`) -/
+def WL.get (wl : WL) (p : Bool) (v : Nat) : List Nat :=
+  ((if p then wl.pos else wl.neg)[v]?).getD []
 
 def WL.upd (wl : WL) (p : Bool) (v : Nat) (xs : List Nat) : WL :=
-  fun p' v' => if p' = p ∧ v' = v then xs else wl p' v'
+  if p then { wl with pos := setPad wl.pos v xs } else { wl with neg := setPad wl.neg v xs }
 
 /-- `watch_list_{pos,neg}[l.label].push(ci)` -/
-def WL.push (wl : WL) (l : Lit) (ci : Nat) : WL := wl.upd l.pol l.var (wl l.pol l.var ++ [ci])
+def WL.push (wl : WL) (l : Lit) (ci : Nat) : WL := wl.upd l.pol l.var (wl.get l.pol l.var ++ [ci])
 
 /-- `(watch_list_pos, watch_list_neg)` for `n` variables -/
 def WL.toLists (wl : WL) (n : Nat) : List (List Nat) × List (List Nat) :=
-  ((List.range n).map (wl true), (List.range n).map (wl false))
+  ((List.range n).map (wl.get true), (List.range n).map (wl.get false))
 
 /-- `UnitPropResult` (`none` = `UNSAT`, `some m` = `PartialSAT(m)`) together with the
 propagator's watch lists after the call (they are mutated in place, also on `UNSAT`) -/
@@ -98,7 +116,7 @@ def loop (cnf : Cnf) (repaired : Bool) :
   | 0, _, _, _, _ => none
   | fuel + 1, wl, m, l, idx =>
     -- the list watching the literal that has just become false
-    let ws := wl (!l.pol) l.var
+    let ws := wl.get (!l.pol) l.var
     if idx ≥ ws.length then some (wl, some m) else
     let ci := ws.getD idx 0
     let clause := cnf.getD ci []
@@ -114,8 +132,8 @@ def loop (cnf : Cnf) (repaired : Bool) :
       | some (wl', some m') => loop cnf repaired fuel wl' m' l (idx + 1)
     | cand :: second :: _ =>
       let watched :=
-        if repaired then (wl cand.pol cand.var).contains ci
-        else (wl l.pol cand.var).contains ci
+        if repaired then (wl.get cand.pol cand.var).contains ci
+        else (wl.get l.pol cand.var).contains ci
       let newLit := if watched then second else cand
       let wl1 := wl.upd (!l.pol) l.var (swapRemove ws idx)
       let wl2 := wl1.push newLit ci
